@@ -750,7 +750,7 @@ def _scenarios_for(unit_name):
         return ["condense"]
     if base in ("compress", "repack", "condense"):
         cfg = unit_name[unit_name.index("[") + 1:-1]
-        return {"plain": [base, base + ":stale"], "suffix appended": [base + ":nosuffix"],
+        return {"plain": [base, base + ":stale", base + ":dangling-temp-link"], "suffix appended": [base + ":nosuffix"],
                 "suffix appended to a dotted name": [base + ":nosuffix"],
                 "output is the input": [base + ":alias"],
                 "output becomes the input once the suffix is appended": [base + ":alias-nosuffix"],
@@ -759,7 +759,7 @@ def _scenarios_for(unit_name):
     if base == "join":
         return ["join:alias"] if "output is the last input" in unit_name else ["join"]
     if base == "split":
-        return ["split"]
+        return ["split", "split:stale-temp"]
     if base == "tdms2rtdc":
         return ["tdms2rtdc"]
     return []
@@ -793,7 +793,7 @@ def extra_checks(run):
     import multiprocessing as mp
     from contracts import c10_native
     quick = run.tier == "quick"
-    names = ["compress", "repack", "condense", "join", "split", "tdms2rtdc"]
+    names = ["compress", "repack", "condense", "join", "split", "tdms2rtdc", "repack:dangling-temp-link", "split:stale-temp"]
     if not quick:
         names = c10_native.scenario_names() + ["tdms2rtdc"]
     jobs = []
